@@ -80,6 +80,7 @@ func (e *Entry) String() string {
 type Recorder struct {
 	obj      rt.Obj
 	mu       sync.Mutex // Free mode only
+	NoCaps   bool
 	Log      []Entry
 	CloseErr error
 	NoPoints bool // sequential checks: do not create scheduling points
@@ -129,7 +130,19 @@ func (r *Recorder) Strings() []string {
 
 // ---- StatsReporter
 
-func (r *Recorder) Capabilities() tally.Capabilities { return capsRT{} }
+// NoCaps: the reporter says it can neither report nor tag (as a multi reporter with such a child does); what it
+// is handed is recorded all the same - nothing in the properties makes delivery depend on the advertised capabilities.
+func (r *Recorder) Capabilities() tally.Capabilities {
+	if r.NoCaps {
+		return capsNone{}
+	}
+	return capsRT{}
+}
+
+type capsNone struct{}
+
+func (capsNone) Reporting() bool { return false }
+func (capsNone) Tagging() bool   { return false }
 
 type capsRT struct{}
 
